@@ -55,11 +55,11 @@ def file_of(rg, layout):
 class DataSet:
     """Reference, SNV file, BED and locus for one geometry."""
 
-    def __init__(self, d, rng, alleles):
+    def __init__(self, d, rng, alleles, spacing=None):
         os.makedirs(d, exist_ok=True)
         self.dir = d
         self.alleles = alleles
-        self.geom = bamgen.Geometry.build(rng, [a[0] for a in alleles])
+        self.geom = bamgen.Geometry.build(rng, [a[0] for a in alleles], **({"spacing": tuple(spacing)} if spacing else {}))
         g = self.geom
         self.contigs = {g.contig: len(g.ref)}
         self.fasta = bamgen.write_fasta(os.path.join(d, "ref.fa"), {g.contig: g.ref})
@@ -375,13 +375,13 @@ def record_random(task):
     tid = task["tid0"]
     for it in range(task["n"]):
         rng = bamgen.seeded("c06rand", task["seed"], task["chunk"], it)
-        n = rng.randint(5, 8)
+        n = rng.randint(*task.get("n_sites", (5, 8)))
         alleles = []
         for j in range(n):
             ref = rng.choice("ACGT")
             alts = rng.sample([b for b in "ACGT" if b != ref], rng.choice([1, 1, 2]))
             alleles.append((ref, tuple(alts)))
-        ds = DataSet(os.path.join(wd, "d%d" % it), rng, alleles)
+        ds = DataSet(os.path.join(wd, "d%d" % it), rng, alleles, spacing=task.get("spacing"))
         g = ds.geom
         snp_bases = {}
         for p, a in zip(g.sites, alleles):
@@ -393,7 +393,7 @@ def record_random(task):
         for i in range(task.get("alns", 30)):
             rg, sm, f = rng.choice(rgl)
             al = bamgen.random_alignment(rng, g, rng.choice(names), rg, wrong_md_prob=task.get("wrong_md", 0.01), snp_bases=snp_bases,
-                                         min_qual=2, max_qual=41)
+                                         min_qual=2, max_qual=41, **({"length": tuple(task["length"])} if "length" in task else {}))
             per_file[f].append(al)
         paths = {}
         for f in (1, 2):
